@@ -38,7 +38,8 @@ class Proof:
                  loops=(), rules=None, expect=(), canaries=1, unwind=None, unwindset=None, kind='proof',
                  bound_note=None, cbmc_flags=None, drop_flags=(), timeout=600, mem_gb=24, defines=(),
                  functions=(), mutants=(), object_bits=8, solver='--sat-solver cadical', note='', extern_c=True,
-                 no_contract=False, assumed=(), replay=None, partial_loops=False, dead_ok=()):
+                 no_contract=False, plain=False, assumed=(), replay=None, partial_loops=False, dead_ok=()):
+        self.site = None                     # optional callback failure -> site string (for known-finding matching)
         self.dead_ok = list(dead_ok)         # canaries that are expected to be unreachable under this contract
         self.name, self.impl, self.spec, self.harness = name, impl, spec, harness or ('h_' + name)
         self.enforce, self.enforce_rec, self.replace, self.loops = enforce, enforce_rec, list(replace), list(loops)
@@ -52,6 +53,7 @@ class Proof:
         self.mutants = list(mutants)          # [(label, regex, replacement, expected-failing-obligation-regex)]
         self.object_bits, self.solver, self.note = object_bits, solver, note
         self.extern_c = extern_c
+        self.plain = plain                    # direct VC harness: no goto-instrument pass at all
         self.no_contract = no_contract        # lemma harness: no --enforce-contract (only replace)
         self.assumed = list(assumed)          # contracts used via replace that are NOT proved anywhere
         self.replay = replay
@@ -99,14 +101,25 @@ def _limits(mem_gb):
 
 
 def run(cmd, cwd, timeout, mem_gb=24, log=None):
+    """Run a tool in its own process group under a wall-clock and address-space limit; on timeout the whole
+    group is killed (cbmc may have spawned a solver)."""
+    import signal
     t0 = time.time()
+    p = subprocess.Popen(cmd, cwd=cwd, stdout=subprocess.PIPE, stderr=subprocess.PIPE, preexec_fn=_limits(mem_gb),
+                         text=True, errors='replace')
     try:
-        p = subprocess.run(cmd, cwd=cwd, stdout=subprocess.PIPE, stderr=subprocess.PIPE, timeout=timeout,
-                           preexec_fn=_limits(mem_gb), text=True, errors='replace')
-        rc, out, err = p.returncode, p.stdout, p.stderr
-    except subprocess.TimeoutExpired as e:
-        rc, out, err = -999, (e.stdout or b'').decode(errors='replace') if isinstance(e.stdout, bytes) else (e.stdout or ''), 'TIMEOUT after %ss' % timeout
-        subprocess.run(['pkill', '-f', cwd], stdout=subprocess.DEVNULL, stderr=subprocess.DEVNULL)
+        out, err = p.communicate(timeout=timeout)
+        rc = p.returncode
+    except subprocess.TimeoutExpired:
+        try:
+            os.killpg(p.pid, signal.SIGKILL)
+        except Exception:
+            p.kill()
+        try:
+            out, err = p.communicate(timeout=10)
+        except Exception:
+            out, err = '', ''
+        rc, err = -999, 'TIMEOUT after %ss' % timeout
     dt = time.time() - t0
     if log is not None:
         log.append({'cmd': ' '.join(cmd), 'rc': rc, 'secs': round(dt, 2)})
@@ -268,7 +281,7 @@ def run_proof(proof, workroot, mutate=None, keep=False, quiet=False):
             if rc != 0:
                 raise Undecided('link failed: ' + (err + out)[-1500:])
             gb = 'all.gb'
-        lfile, nloops = resolve_loops(proof, gb, cwd, impl_name)
+        lfile, nloops = (None, 0) if proof.plain else resolve_loops(proof, gb, cwd, impl_name)
         res['loop_contracts'] = nloops
         cmd = ['goto-instrument', '--dfcc', 'main']
         if proof.enforce and not proof.no_contract:
@@ -278,6 +291,8 @@ def run_proof(proof, workroot, mutate=None, keep=False, quiet=False):
         if lfile:
             cmd += ['--apply-loop-contracts', '--loop-contracts-file', 'loops.json']
         cmd += [gb, 'inst.gb']
+        if proof.plain:
+            cmd = ['cp', gb, 'inst.gb']
         rc, out, err, dt = run(cmd, cwd, proof.timeout, proof.mem_gb, log=log)
         if rc != 0:
             raise Undecided('goto-instrument failed: ' + (err + out)[-2500:])
@@ -289,6 +304,8 @@ def run_proof(proof, workroot, mutate=None, keep=False, quiet=False):
             flags += ['--unwindset', proof.unwindset]
         if proof.solver:
             flags += proof.solver.split()
+        if proof.plain:
+            flags += ['--drop-unused-functions']
         for ob in [proof.object_bits] + [b for b in (10, 12, 14) if b > (proof.object_bits or 8)]:
             # the DFCC object sets scale with 2^object-bits, so the smallest sufficient value is used
             ccmd = ['cbmc', 'inst.gb'] + flags + (['--object-bits', str(ob)] if ob else []) + ['--json-ui', '--trace']
